@@ -1,8 +1,8 @@
 """Tagged-value encoding shared by the TLA+ specs and the harness.
 
-TLA+ side (spec/JsonValue.tla):  scalar [t |-> atom] ; dict [t |-> "d", v |-> fn] ;
-list [t |-> "l", v |-> seq].  JSON side (ToJson / JsonDeserialize): {"t": atom},
-{"t":"d","v":{...}}, {"t":"l","v":[...]}  (an empty function prints as []).
+TLA+ side (spec/JsonValue.tla):  scalar [t |-> atom] ; dict [t |-> "d", m |-> fn] ;
+list [t |-> "l", s |-> seq].  JSON side (ToJson / JsonDeserialize): {"t": atom},
+{"t":"d","m":{...}}, {"t":"l","s":[...]}  (an empty function prints as []).
 """
 import json
 
@@ -76,13 +76,13 @@ def to_py(v, pool=None, tuples=False):
     """Tagged JSON value -> plain Python data."""
     t = v["t"]
     if t == "d":
-        body = v["v"]
+        body = v["m"]
         if isinstance(body, list):  # empty function
             assert not body
             return {}
         return {key_to_py(k): to_py(x, pool, tuples) for k, x in body.items()}
     if t == "l":
-        items = [to_py(x, pool, tuples) for x in v["v"]]
+        items = [to_py(x, pool, tuples) for x in v["s"]]
         return tuple(items) if tuples else items
     return atom_to_py(t, pool)
 
@@ -90,23 +90,25 @@ def to_py(v, pool=None, tuples=False):
 def from_py(x):
     """Plain Python data (or anything dict/list-like already converted) -> tagged JSON value."""
     if isinstance(x, dict):
-        return {"t": "d", "v": {key_from_py(k): from_py(y) for k, y in x.items()}}
+        return {"t": "d", "m": {key_from_py(k): from_py(y) for k, y in x.items()}}
     if isinstance(x, (list, tuple)):
-        return {"t": "l", "v": [from_py(y) for y in x]}
+        return {"t": "l", "s": [from_py(y) for y in x]}
     return {"t": atom_from_py(x)}
 
 
 def canon(v):
     """Canonical hashable string of a tagged value / any JSON structure."""
-    if isinstance(v, dict) and v.get("t") == "d" and isinstance(v.get("v"), list):
-        v = {"t": "d", "v": {}}
     return json.dumps(_norm(v), sort_keys=True, separators=(",", ":"))
+
+
+EMPTY_D = '{"m":{},"t":"d"}'
+EMPTY_L = '{"s":[],"t":"l"}'
 
 
 def _norm(v):
     if isinstance(v, dict):
-        if v.get("t") == "d" and isinstance(v.get("v"), list):
-            return {"t": "d", "v": {}}
+        if v.get("t") in ("d", "bag", "items") and isinstance(v.get("m"), list):
+            return {"t": v["t"], "m": {}}
         return {k: _norm(x) for k, x in v.items()}
     if isinstance(v, list):
         return [_norm(x) for x in v]
